@@ -160,9 +160,26 @@ def fold(project: Project, module: Module, node: ast.AST, depth: int = 0, local=
             v = fold(project, module, f.value, depth + 1, local)
             if isinstance(v, dict):
                 return list(getattr(v, f.attr)())
+        if isinstance(f, ast.Name) and f.id == "isinstance" and len(node.args) == 2 and not node.keywords and project.resolve_name(module.name, "isinstance") == (None, None):
+            v = fold(project, module, node.args[0], depth + 1, local)
+            tnames = [e for e in (node.args[1].elts if isinstance(node.args[1], ast.Tuple) else [node.args[1]])]
+            table = {"dict": dict, "list": list, "str": str, "int": int, "float": float, "bool": bool, "tuple": tuple, "set": set, "bytes": bytes}
+            if all(isinstance(t, ast.Name) and t.id in table for t in tnames) and not isinstance(v, (_Sentinel, EnumMember)):
+                return isinstance(v, tuple(table[t.id] for t in tnames))
+        if isinstance(f, ast.Name) and f.id in ("bool", "len") and len(node.args) == 1 and not node.keywords and project.resolve_name(module.name, f.id) == (None, None):
+            v = fold(project, module, node.args[0], depth + 1, local)
+            try:
+                return bool(v) if f.id == "bool" else len(v)
+            except TypeError:
+                raise NotConstant(ast.unparse(node)[:60])
         # a module-level helper of the package whose body is one `return <expression>`: the expression over its arguments
         if isinstance(f, ast.Name) and not node.keywords:
             kind, obj = project.resolve_name(module.name, f.id)
+            if kind == "func" and depth < 6:
+                body_ = [s_ for s_ in obj.node.body if not (isinstance(s_, ast.Expr) and isinstance(s_.value, ast.Constant))]
+                if not (len(body_) == 1 and isinstance(body_[0], ast.Return)) and len(obj.node.args.args) == len(node.args) and not obj.node.args.vararg and not obj.node.args.kwonlyargs and not isinstance(obj.node, ast.AsyncFunctionDef):
+                    # … or a short decision: straight-line assignments, if/else on foldable tests, returns
+                    return fold_function(project, obj, [fold(project, module, a_, depth + 1, local) for a_ in node.args], depth + 1)
             if kind == "func":
                 body = [s_ for s_ in obj.node.body if not (isinstance(s_, ast.Expr) and isinstance(s_.value, ast.Constant))]
                 params = [a.arg for a in obj.node.args.args]
